@@ -321,6 +321,7 @@ def run(R):
             R.ob("C03-R7", "every-quad-kept", "every quad produced by instantiate_quad is inserted into the result, under no condition other than "
                  "`instantiation yielded a quad`", okins, where=it.where(c.ln))
     r8(R)
+    r9(R)
     # allocate_blank_node retries until the label is unused and encodes that very label
     ab = R.body("C03-R4", "execute_query::allocate_blank_node", crate="kolibrie")
     if ab is not None:
@@ -499,3 +500,31 @@ def r8(R):
         late = [e[2] for e in events if e[1] == "stored" and any(r[0] != e[0] and b.dominates(r[0], e[0]) for r in reqs)]
         R.ob("C03-R8", "request-last", "no remembered prefix is written into the returned map after the request's declarations", not late,
              where=b.where(late[0].ln if late else None))
+
+
+def r9(R):
+    """a template quad whose graph name is not instantiated is skipped, not sent to the default graph"""
+    from lib.taint import Taint
+    prog = R.prog
+    R.rule("C03-R9", "`no GRAPH block` and `GRAPH ?g with ?g unbound` are different: in instantiate_quad the outcome of instantiating the template's graph "
+                     "name is never replaced by a default (`unwrap_or*`, `map_or*`, `or(..)`) - when the name cannot be instantiated for a solution the "
+                     "quad is skipped, as for an unbound subject. Otherwise a DELETE / INSERT template under `GRAPH ?g` acts on the default graph for "
+                     "every solution that leaves ?g unbound (`{ .. } UNION { GRAPH ?g { .. } }`, `VALUES ?g { UNDEF }`)")
+    b = R.body("C03-R9", "execute_query::instantiate_quad", crate="kolibrie")
+    if b is None:
+        return
+    R.saw(b)
+    fam = prog.family(b.key)
+    T = Taint(prog, b)
+    ig = [(x, c) for x in fam for c in x.calls() if c.name() == "instantiate_graph"]
+    if not R.ob("C03-R9", "instantiates", "instantiate_quad instantiates the graph name through instantiate_graph (found %d call)" % len(ig), len(ig) >= 1, where=b.where()):
+        return
+    for x, c in ig:
+        T.seed(x, c.dest["l"], "graph-outcome")
+    T.run()
+    DEFAULTING = ("unwrap_or", "unwrap_or_default", "unwrap_or_else", "map_or", "map_or_else", "or", "or_else", "get_or_insert", "get_or_insert_with")
+    bad = [(x, c) for x in fam for c in x.calls() if c.name() in DEFAULTING and c.args and "graph-outcome" in T.op_taint(x, c.args[0])
+           and "GraphId" in x.local_ty((F.op_place(c.args[0]) or {"l": 0})["l"])]
+    R.ob("C03-R9", "no-default", "no default stands in for a graph name that could not be instantiated (defaulting calls on the outcome: %s)" % sorted({c.name() for x, c in bad}),
+         not bad, where=(bad[0][0].where(bad[0][1].ln) if bad else b.where()),
+         detail=None if not bad else "`DELETE { GRAPH ?g { ?s ?p ?o } } WHERE { { ?s ?p ?o } UNION { GRAPH ?g { ?s ?p ?o } } }` empties the default graph")
